@@ -64,17 +64,19 @@ def close(a, b, rtol=RTOL, atol=0.0):
 
 
 class Model:
-    """One session of the compiled Lean model: feed lines, get one reply per line."""
+    """One session of the compiled Lean model: feed lines, get one reply per line.
+    `exe` names the driver executable (`unytmodel` = shared opcodes; `drv_cnn` = property Cnn)."""
 
-    def __init__(self):
-        if not os.path.exists(DRIVER):
-            raise RuntimeError(f"model driver not built: {DRIVER}")
+    def __init__(self, exe="unytmodel"):
+        self.driver = os.path.join(LEAN, ".lake", "build", "bin", exe)
+        if not os.path.exists(self.driver):
+            raise RuntimeError(f"model driver not built: {self.driver}")
 
     def ask(self, lines):
         if not lines:
             return []
         data = "".join(l + "\n" for l in lines)
-        p = subprocess.run([DRIVER], input=data.encode("utf-8"), capture_output=True, timeout=600)
+        p = subprocess.run([self.driver], input=data.encode("utf-8"), capture_output=True, timeout=600)
         if p.returncode != 0:
             raise RuntimeError(f"model driver failed rc={p.returncode}: {p.stderr[-400:]!r}")
         out = p.stdout.decode("utf-8").split("\n")
@@ -98,11 +100,14 @@ class Broken(Exception):
         self.detail = detail
 
 
-def run_extract():
-    p = subprocess.run([PY, os.path.join(VERIF, "tools", "extract_tables.py")], capture_output=True, text=True)
+def run_extract(plugins=()):
+    """Run the translator: the core tables plus the plugins (tools/extract.d/<name>.py) whose
+    names start with one of `plugins`.  Returns (status line, error detail or None)."""
+    cmd = [PY, os.path.join(VERIF, "tools", "extract_tables.py"), "--only", ",".join(plugins)]
+    p = subprocess.run(cmd, capture_output=True, text=True)
     if p.returncode != 0:
-        raise Broken("translator", (p.stdout + p.stderr)[-2000:])
-    return p.stdout.strip()
+        return p.stdout.strip(), (p.stdout + p.stderr)[-2000:]
+    return p.stdout.strip(), None
 
 
 class BuildResult:
@@ -223,11 +228,21 @@ def audit_axioms(module, names):
     return res, out
 
 
-def prove(prop, modules, extra_targets=("unytmodel",)):
-    """Extract, build the property's proof modules and the driver, audit.
+def leanchecker(modules):
+    """independent re-check of the compiled proofs (thorough tier)"""
+    p = subprocess.run(["lake", "env", "leanchecker"] + list(modules), cwd=LEAN, capture_output=True, text=True)
+    return p.returncode == 0, (p.stdout + p.stderr)[-1500:]
 
-    Returns dict(obligations, discharged, theorems, broken=[(name, detail)], log)."""
-    info = {"extract": run_extract()}
+
+def prove(prop, modules, extra_targets=("unytmodel",), plugins=None, tier="quick"):
+    """Extract (core tables + the property's translator plugins), build the property's proof
+    modules and driver(s), audit.  Never raises on a failed proof.
+
+    Returns dict(obligations, discharged, theorems, broken=[(name, detail)], build_ok, ...)."""
+    if plugins is None:
+        plugins = (prop.lower(),)
+    status, xerr = run_extract(plugins)
+    info = {"extract": status}
     targets = list(modules) + list(extra_targets)
     br = lake_build(targets)
     theorems = []
@@ -268,6 +283,13 @@ def prove(prop, modules, extra_targets=("unytmodel",)):
                     bad = [a for a in ax[n] if a not in ALLOWED_AXIOMS]
                     if bad:
                         broken.append((n, f"audit: depends on axioms {bad}"))
+    if xerr:
+        broken.append(("translator", xerr))
+    if br.ok and tier == "thorough" and modules:
+        ok, out = leanchecker(modules)
+        info["leanchecker"] = "ok" if ok else out
+        if not ok:
+            broken.append(("leanchecker", out))
     info.update(
         obligations=len(theorems),
         discharged=len([n for n in names_ok if n not in {b[0] for b in broken}]) if theorems else 0,
